@@ -7,13 +7,16 @@ package main
 import (
 	"context"
 	"fmt"
+	"math"
 	"strconv"
 	"strings"
 	"time"
 
+	"github.com/pingcap/kvproto/pkg/coprocessor"
 	"github.com/pingcap/kvproto/pkg/errorpb"
 	"github.com/pingcap/kvproto/pkg/kvrpcpb"
 	"github.com/pingcap/kvproto/pkg/metapb"
+	"github.com/pingcap/kvproto/pkg/tikvpb"
 	"github.com/pkg/errors"
 	"github.com/tikv/client-go/v2/config/retry"
 	"github.com/tikv/client-go/v2/internal/apicodec"
@@ -105,24 +108,83 @@ const (
 // ---------- configuration of one run ----------
 
 type config struct {
-	Topo   string `json:"topo"`   // 3v | 2v1l
-	Mode   string `json:"mode"`   // leader | leader-busy | follower | mixed | learner | prefer-leader | stale
-	Opt    string `json:"opt"`    // none | label-s2 | label-s1 | label-nomatch | leader-only | stores-s3
-	Cmd    string `json:"cmd"`    // get | get-short | batchget | prewrite | commit-short
-	Live   string `json:"live"`   // all | leader-down | leader-down-known | s2-down | s2-down-known | all-down | leader-unknown | s3-down-known
-	Fwd    bool   `json:"fwd"`    // forwarding enabled
-	TS     string `json:"ts"`     // valid | future | future-novalidate
-	Budget int    `json:"budget"` // back-off budget of the call in ms
-	Slow   string `json:"slow"`   // none | s2 | leader
-	Rnd    int    `json:"rnd"`    // 0: ties pick the first candidate, jitter max; 1: ties pick the last, jitter min
+	Topo   string `json:"topo"`           // 3v | 2v1l
+	Mode   string `json:"mode"`           // leader | leader-busy | follower | mixed | learner | prefer-leader | stale
+	Opt    string `json:"opt"`            // none | label-s2 | label-s1 | label-nomatch | leader-only | stores-s3
+	Cmd    string `json:"cmd"`            // get | get-short | batchget | prewrite | commit-short | cmd:<CmdType name> (built from the catalogue)
+	Path   string `json:"path,omitempty"` // "" or sync: SendReqCtx; async: SendReqAsync
+	Live   string `json:"live"`           // all | leader-down | leader-down-known | s2-down | s2-down-known | all-down | leader-unknown | s3-down-known
+	Fwd    bool   `json:"fwd"`            // forwarding enabled
+	TS     string `json:"ts"`             // valid | future | max (MaxUint64: valid unless the request is a stale read) | future-novalidate
+	Budget int    `json:"budget"`         // back-off budget of the call in ms
+	Slow   string `json:"slow"`           // none | s2 | leader
+	Rnd    int    `json:"rnd"`            // 0: ties pick the first candidate, jitter max; 1: ties pick the last, jitter min
 	ord    int    // position in the enumeration order (simplest first); used to pick the reported example
 }
 
 func (c config) String() string {
-	return fmt.Sprintf("%s/%s/%s/%s/live=%s/fwd=%v/ts=%s/B=%d/slow=%s/rnd=%d", c.Topo, c.Mode, c.Opt, c.Cmd, c.Live, c.Fwd, c.TS, c.Budget, c.Slow, c.Rnd)
+	return fmt.Sprintf("%s/%s/%s/%s/%s/live=%s/fwd=%v/ts=%s/B=%d/slow=%s/rnd=%d", c.Topo, c.Mode, c.Opt, c.Cmd, c.path(), c.Live, c.Fwd, c.TS, c.Budget, c.Slow, c.Rnd)
 }
 
-func (c config) isWrite() bool { return c.Cmd == "prewrite" || c.Cmd == "commit-short" }
+func (c config) path() string {
+	if c.Path == "" {
+		return "sync"
+	}
+	return c.Path
+}
+
+// entry: the catalogue entry of the command (nil for a command the catalogue does not know).
+func (c config) entry() *cmdEntry {
+	switch c.Cmd {
+	case "get", "get-short":
+		return catalogue.byName["Get"]
+	case "batchget":
+		return catalogue.byName["BatchGet"]
+	case "prewrite":
+		return catalogue.byName["Prewrite"]
+	case "commit-short":
+		return catalogue.byName["Commit"]
+	}
+	return catalogue.byName[strings.TrimPrefix(c.Cmd, "cmd:")]
+}
+
+func (c config) isWrite() bool {
+	if strings.HasPrefix(c.Cmd, "cmd:") {
+		e := c.entry()
+		return e != nil && e.Write
+	}
+	return c.Cmd == "prewrite" || c.Cmd == "commit-short"
+}
+
+// tsChecked: the read-timestamp clause applies to the command (a read that carries a read timestamp).
+func (c config) tsChecked() bool {
+	if strings.HasPrefix(c.Cmd, "cmd:") {
+		e := c.entry()
+		return e != nil && e.isRead()
+	}
+	return !c.isWrite()
+}
+
+// cmdName: the CmdType name, used in violation keys.
+func (c config) cmdName() string {
+	if e := c.entry(); e != nil {
+		return e.Name
+	}
+	return c.Cmd
+}
+
+func (c config) tsValue() uint64 {
+	switch c.TS {
+	case "valid":
+		return nowTS - 1
+	case "max":
+		return math.MaxUint64
+	}
+	return futureTS
+}
+
+// entryStale: the request is a stale read when it is handed to the sender.
+func (c config) entryStale() bool { return c.Mode == "stale" }
 
 type caseID struct {
 	Cfg    config   `json:"config"`
@@ -184,11 +246,20 @@ type tsValidator struct {
 	rejected int
 }
 
-func tsIsValid(ts uint64) bool { return ts <= nowTS }
+// tsIsValid is the verdict of the scripted validator, a function of what the real one looks at: the
+// timestamp and whether the read is a stale read. Timestamps up to "now" are valid, later ones are not;
+// MaxUint64 ("read the latest") is valid for an ordinary read and invalid for a stale read, as in
+// oracles.pdOracle.ValidateReadTS.
+func tsIsValid(ts uint64, staleRead bool) bool {
+	if ts == math.MaxUint64 {
+		return !staleRead
+	}
+	return ts <= nowTS
+}
 
 func (v *tsValidator) ValidateReadTS(ctx context.Context, readTS uint64, isStaleRead bool, opt *oracle.Option) error {
 	v.calls++
-	if !tsIsValid(readTS) {
+	if !tsIsValid(readTS, isStaleRead) {
 		v.rejected++
 		return errors.Errorf("c10 read ts %d is in the future (now %d)", readTS, uint64(nowTS))
 	}
@@ -211,6 +282,7 @@ type attempt struct {
 	Answer      string `json:"answer"`
 	nonce       uint64
 	genuineOK   bool
+	respObj     any // catalogue commands: the message of the genuine answer (identity is the nonce)
 }
 
 type capExceeded struct{ why string }
@@ -218,16 +290,17 @@ type capExceeded struct{ why string }
 // ---------- scripted client ----------
 
 type scriptClient struct {
-	cfg      config
-	script   []answer
-	tail     string
-	bo       *retry.Backoffer
-	attempts []attempt
-	hardCap  int // total attempts
-	fastCap  int // consecutive attempts without any accounted back-off in between
-	fastRun  int
-	maxFast  int
-	closed   []string
+	cfg        config
+	script     []answer
+	tail       string
+	bo         *retry.Backoffer
+	attempts   []attempt
+	hardCap    int // total attempts
+	fastCap    int // consecutive attempts without any accounted back-off in between
+	fastRun    int
+	maxFast    int
+	closed     []string
+	asyncSends int
 }
 
 func (c *scriptClient) Close() error { return nil }
@@ -237,6 +310,7 @@ func (c *scriptClient) CloseAddr(addr string) error {
 }
 func (c *scriptClient) SetEventListener(client.ClientEventListener) {}
 func (c *scriptClient) SendRequestAsync(ctx context.Context, addr string, req *tikvrpc.Request, cb async.Callback[*tikvrpc.Response]) {
+	c.asyncSends++
 	cb.Invoke(c.SendRequest(ctx, addr, req, 0))
 }
 
@@ -263,6 +337,9 @@ func readTSOf(req *tikvrpc.Request) uint64 {
 		return r.Version
 	case *kvrpcpb.BatchGetRequest:
 		return r.Version
+	}
+	if e := catalogue.byCmd[req.Type]; e != nil {
+		return e.tsOnWire(req)
 	}
 	return 0
 }
@@ -299,7 +376,11 @@ func (c *scriptClient) SendRequest(ctx context.Context, addr string, req *tikvrp
 		panic(capExceeded{fmt.Sprintf("more than %d attempts", c.hardCap)})
 	}
 	if ans == aOK {
-		return genuineResp(req, at.nonce), nil
+		resp := genuineResp(req, at.nonce)
+		if payloadNonce(resp) == 0 {
+			c.attempts[k].respObj = resp.Resp
+		}
+		return resp, nil
 	}
 	return faultResp(ans, req, tStore, c.cfg.Topo)
 }
@@ -316,7 +397,19 @@ func genuineResp(req *tikvrpc.Request, nonce uint64) *tikvrpc.Response {
 	case tikvrpc.CmdCommit:
 		return &tikvrpc.Response{Resp: &kvrpcpb.CommitResponse{CommitVersion: nonce}}
 	}
-	panic("unsupported command")
+	// Any other command: a fresh, empty answer of the command's own response type; the oracle recognises
+	// it by identity. The type is the one GenRegionErrorResp uses for the command (no region error set);
+	// the two stream commands it cannot express get their stream wrapper.
+	switch req.Type {
+	case tikvrpc.CmdBatchCop:
+		return &tikvrpc.Response{Resp: &tikvrpc.BatchCopStreamResponse{BatchResponse: &coprocessor.BatchResponse{}}}
+	case tikvrpc.CmdCopStream:
+		return &tikvrpc.Response{Resp: &tikvrpc.CopStreamResponse{Response: &coprocessor.Response{}}}
+	}
+	if resp, err := tikvrpc.GenRegionErrorResp(req, nil); err == nil && resp != nil && resp.Resp != nil {
+		return resp
+	}
+	return &tikvrpc.Response{Resp: &tikvpb.BatchCommandsEmptyResponse{}}
 }
 
 // payloadNonce extracts the nonce of a genuine payload (0: none).
@@ -464,6 +557,23 @@ type result struct {
 	validator *tsValidator
 	selector  string
 	setupErr  string
+	// asynchronous path only
+	asyncAddr       string
+	asyncNoCallback bool
+	asyncSends      int
+}
+
+// inlineExec is the async.Executor of the asynchronous path (see run).
+type inlineExec struct{ q []func() }
+
+func (e *inlineExec) Go(f func())         { f() }
+func (e *inlineExec) Append(fs ...func()) { e.q = append(e.q, fs...) }
+func (e *inlineExec) drain() {
+	for len(e.q) > 0 {
+		f := e.q[0]
+		e.q = e.q[1:]
+		f()
+	}
 }
 
 type world struct {
@@ -475,12 +585,16 @@ func newWorld() *world {
 }
 
 func buildRequest(cfg config) (*tikvrpc.Request, []locate.StoreSelectorOption, time.Duration) {
-	ts := uint64(nowTS - 1)
-	if cfg.TS != "valid" {
-		ts = futureTS
-	}
+	ts := cfg.tsValue()
 	var req *tikvrpc.Request
 	timeout := client.ReadTimeoutShort
+	if strings.HasPrefix(cfg.Cmd, "cmd:") {
+		e := cfg.entry()
+		if e == nil {
+			panic("bad cmd " + cfg.Cmd)
+		}
+		req = e.build(ts)
+	}
 	switch cfg.Cmd {
 	case "get":
 		req = tikvrpc.NewRequest(tikvrpc.CmdGet, &kvrpcpb.GetRequest{Key: []byte("k"), Version: ts})
@@ -497,7 +611,9 @@ func buildRequest(cfg config) (*tikvrpc.Request, []locate.StoreSelectorOption, t
 		req = tikvrpc.NewRequest(tikvrpc.CmdCommit, &kvrpcpb.CommitRequest{StartVersion: ts, Keys: [][]byte{[]byte("k")}, CommitVersion: ts + 1})
 		timeout = 500 * time.Millisecond
 	default:
-		panic("bad cmd " + cfg.Cmd)
+		if req == nil {
+			panic("bad cmd " + cfg.Cmd)
+		}
 	}
 	switch cfg.Mode {
 	case "leader":
@@ -622,8 +738,26 @@ func (w *world) run(id caseID, fastCap, hardCap int) (res *result) {
 				}
 			}
 		}()
+		if cfg.path() == "async" {
+			// The executor runs everything on this goroutine: Go(f) runs f at once (one of the schedules a
+			// pool may choose), scheduled callbacks are queued and drained after SendReqAsync returned. So a
+			// panic of the code under test and the harness's caps surface here, and the run is deterministic.
+			ex := &inlineExec{}
+			done := false
+			sender.SendReqAsync(bo, req, loc.Region, timeout, async.NewCallback(ex, func(r *tikvrpc.ResponseExt, e error) {
+				done = true
+				res.err = e
+				if r != nil {
+					res.resp, res.asyncAddr = &r.Response, r.Addr
+				}
+			}), opts...)
+			ex.drain()
+			res.asyncNoCallback = !done
+			return
+		}
 		res.resp, res.rpcCtx, _, res.err = sender.SendReqCtx(bo, req, loc.Region, timeout, tikvrpc.TiKV, opts...)
 	}()
+	res.asyncSends = cl.asyncSends
 	res.attempts = cl.attempts
 	res.maxFast = cl.maxFast
 	res.sleep = bo.GetTotalSleep()
